@@ -51,8 +51,8 @@ Definition el_add_flags (e : elem) (c : chan) (fl : list val) : step elem :=
       end
   end.
 
-(* Element.addArray(channel, waveform, SR, **markers): the entry is replaced before the
-   marker lengths are checked, so a rejected call leaves a half-built entry *)
+(* Element.addArray(channel, waveform, SR, **markers): the marker lengths are checked first (since the repair of
+   D22; before it the entry was replaced first and a rejected call left a half-built entry without waveform and SR) *)
 Fixpoint add_markers (N : Z) (ms : list (str * rle)) (acc : list (str * rle)) : list (str * rle) * bool :=
   match ms with
   | [] => (acc, true)
@@ -61,7 +61,7 @@ Fixpoint add_markers (N : Z) (ms : list (str * rle)) (acc : list (str * rle)) : 
 Definition el_add_array (e : elem) (c : chan) (w : rle) (SR : val) (ms : list (str * rle)) : step elem :=
   let '(arrs, good) := add_markers (rle_len w) ms [] in
   if good then ok (el_set e c (mkCh (KArr (aset str_eqb (S_ "wfm") w arrs) (Some SR)) None))
-  else fail (el_set e c (mkCh (KArr arrs None) None)) EValue.
+  else fail e EValue.
 
 Fixpoint mapM {A B} (f : A -> result B) (l : list A) : result (list B) :=
   match l with
